@@ -92,7 +92,7 @@ class C19(Prop):
         "keyhash_embedded_nul_counterexample", "spec_store", "spec_lookup", "spec_get",
         "keyhash_refines", "keyhash_never_faults", "keyhash_refines_jenkins", "keyhash_ops", "keyhash_key_length", "keyhash_get_cstring", "keyhash_string_paths_repaired", "keyhash_dump_repaired", "keyhash_fields_in_range", "keyhash_embedded_nul_repaired", "keyhash_at_bound", "keyhash_below_bound", "keyhash_at_bound_default", "keyhash_kalloc_at_bound", "keyhash_hashsize_at_bound", "keyhash_growth_in_tree", "keyhash_growth_guarded_never_overflows",
         "heap_history", "heap_insert", "heap_extract", "heap_extract_null", "heap_extract_null_unguarded_faults", "heap_sorts", "heap_drain", "heap_validate", "heap_nalloc_in_range", "heap_grow", "heap_duplicates",
-        "rb_insert", "rb_history", "rb_wf_iff", "rb_height", "rb_lookup", "rb_sorted_linked", "rb_linked_is_reverse_inorder", "rb_lookup_history", "rb_pool_never_twice", "rb_ptr_lookup", "rb_convert_doubly_linked", "rb_convert_null", "rb_convert_passes_list_test", "rb_ops_history", "rb_ptr_descend", "rb_ptr_insert_duplicate", "rb_ptr_insert_black_parent", "rb_ptr_insert_first", "rb_pool_give_take", "rb_ptr_insert_refines", "rb_ptr_rebalance_refines", "rb_ptr_insert_wf", "rb_ptr_history", "rb_ptr_history_converts",
+        "rb_insert", "rb_history", "rb_wf_iff", "rb_height", "rb_lookup", "rb_sorted_linked", "rb_linked_is_reverse_inorder", "rb_lookup_history", "rb_pool_never_twice", "rb_ptr_lookup", "rb_convert_doubly_linked", "rb_convert_null", "rb_convert_passes_list_test", "rb_ops_history", "rb_ptr_descend", "rb_ptr_insert_duplicate", "rb_ptr_insert_black_parent", "rb_ptr_insert_first", "rb_pool_give_take", "rb_ptr_insert_refines", "rb_ptr_rebalance_refines", "rb_ptr_insert_wf", "rb_ptr_history", "rb_ptr_history_converts", "rb_ptr_pool_history",
         "stack_history", "stack_history_shuffles", "stack_no_fault", "stack_threads_atomic", "stack_threads_conservation", "stack_threads_eod_only_after_release", "stack_threads_mutex_progress", "stack_threads_waiting_pop_completes", "stack_threads_stuck_only_when_all_asleep", "stack_threads_completes_after_release", "stack_push_pop", "stack_pop_empty", "stack_lifo", "stack_popAll_unfold", "stack_discardTopN", "stack_discardSelected",
         "stack_shuffle", "stack_convert2String", "stack_nalloc_in_range",
         "quicksort_sorts", "quicksort_unguarded_n0_faults")]
@@ -105,20 +105,20 @@ class C19(Prop):
     level_text = ("Theorems for all histories / inputs (no bound): (1) the chained key hash (Store/Lookup/Get/Reuse/Clone, 8-fold key_upsize, arena and index reallocation) "
                   "refines the insertion-ordered list of distinct keys for ANY hash function into [0,size) and any initial sizes, with no out-of-bounds access and no endless chain walk - for ARBITRARY byte strings "
                   "(embedded NULs included; keyhash_refines, about the code after the repair 491f68d, which is the variant in the tree: regenerated flag KeyhashVariant.repaired); (2) the integer heap refines the sorted-list priority queue for every interleaving of inserts / extractions / peeks (min and max), draining yields the sorted multiset; "
-                  "(3) red-black insertion as coded (recolour / 4 rotations; pointer level: descent loop, duplicate -> NULL with no tree record written, attach under a black parent, lookup, sorted doubly linked list, pool reuse) never reaches esl_fatal and keeps BST order, black root, no red-red, equal black height, exactly the inserted keys, height <= 2 log2(n+1), and converts to the sorted list; "
+                  "(3) red-black insertion as coded never reaches esl_fatal and keeps BST order, black root, no red-red, equal black height, exactly the inserted keys, height <= 2 log2(n+1), and converts to the sorted list; POINTER LEVEL (records with small/large/parent pointers in a store): esl_red_black_doublekey_insert with rebalance - descent, linking, recolouring with its recursion up the parent pointers, the four rotations incl. root / great-grandparent relinking - REFINES the inductive insert for every laid-out tree, every key and every history (rb_ptr_insert_refines, rb_ptr_rebalance_refines, rb_ptr_history: same failure set, same keys and colours, correct child AND parent pointers, exactly the old records plus the new one, nothing else written), lookup, conversion to the doubly linked list passing the library's own list test, pool reuse; "
                   "(4) stacks refine the LIFO list for every history of push/pop/DiscardTopN/DiscardSelected/Reuse, shuffles permute for every generator state; in thread-communication mode (mutex + condition variable, blocking Pop, ReleaseCond) an interleaving transition system shows for EVERY schedule of any number of pusher / popper threads that no item is lost or duplicated, eslEOD is answered only after ReleaseCond, the only stuck state is 'all unfinished threads asleep on an empty stack before ReleaseCond', and after ReleaseCond every thread can run to completion; "
                   "(5) index quicksort (partition as written, incl. the no-op first swap) terminates without out-of-bounds access and returns a permutation of 0..n-1 ordering the data for any total preorder, every n>=0. "
                   "The hand-written models are tied to the working tree by an exact differential run over operation histories including internal state dumps; abstract-type monitors in Python give a concrete failing history.")
     level_note = ("Trusted: Lean kernel + propext/Classical.choice/Quot.sound; fidelity of the hand models is checked (not proved) by the differential run. "
                   "The keyhash embedded-NUL defect (keys stored by length compared with strlen-based routines), esl_quicksort n=0 and esl_heap_IExtractTop(hp,NULL) on an empty heap were found by this check and are fixed in the tree; regression cases kept, and the theorems about the code BEFORE each fix are kept as regression theorems "
                   "(keyhash_*_partial, keyhash_embedded_nul_counterexample are about the unrepaired key comparison, which the driver would run again if the tree went back to it). "
-                  "C int overflow is excluded by an explicit bound on the abstract content (<= 2^30-1 keys / arena bytes: keyhash_fields_in_range_partial); allocation failure, concurrent use of the esl_stack mutex/cond mode (exercised sequentially only) and the hashsize >= 2^28 growth stop are outside the model or untested; red-black keys are integers (doubles without NaN).")
+                  "C int arithmetic: below 2^30-1 keys / arena bytes no field overflows (keyhash_fields_in_range); AT the bound the growth code is modelled in the C types (KeyhashInt32.lean: keyhash_at_bound, keyhash_kalloc_at_bound, keyhash_hashsize_at_bound): the uint32 hashsize arithmetic never wraps below the 2^28 growth stop and the stop is a no-op (refinement holds for any table size); the int doubling of salloc / kalloc overflowed (UB) once the arena needed > 2^30 bytes (~3 GiB to reach: found by this modelling, outside the property's quantifier of <= 10^5 keys of <= 300 bytes, repaired in the tree by 6d58328 - the variant is regenerated every run: KeyhashGrowthVariant.growthGuarded, keyhash_growth_in_tree); the at-bound behaviour is proved, not exercised by the differential run (needs a 1 GiB key). Allocation failure is outside the model; red-black keys are integers (doubles without NaN).")
     trusted_base = ["hand models of esl_keyhash.c / esl_heap.c / esl_red_black.c / esl_stack.c / esl_quicksort.c tied by exact differential run "
                     "(h_containers.c, ASan+UBSan build of the working tree), including internal state dumps (heap array, tree shape and colours, stack array, table sizes)",
                     "Lean compiler/runtime for the executable driver", "gcc"]
     assumptions = ["keyhash: sentinel -1 modelled as Option.none; arena modelled as its used part smem[0..sn); int arithmetic modelled in Nat - justified by keyhash_fields_in_range_partial: while the table holds at most 2^30-1 keys and 2^30-1 arena bytes every int/uint32 field stays <= 2^31-1 (likewise nalloc of heaps and stacks: heap_nalloc_in_range, stack_nalloc_in_range)",
                    "keyhash API with n=-1 (C strings): the string hash loop and strlen as written, proved equal to the buffer API applied to the bytes before the first NUL (keyhash_string_paths_repaired; keyhash_string_paths for the strcmp walk of the unrepaired variant)",
-                   "red-black: parent pointers are the recursion stack of the model; link consistency (child->parent) is checked by the harness on every dump; keys are integer-valued doubles",
+                   "red-black: two models - the inductive tree (parent chain = recursion stack) and the pointer-level store (records with key, colour, parent, small, large; every record compared with the C records on every rp_nodes dump); the pointer-level insert is PROVED to refine the inductive one (rb_ptr_insert_refines); keys are integer-valued doubles",
                    "stacks: one model for the I/C/P variants; the mutex / condition-variable mode (esl_stack_UseMutex, UseCond, ReleaseCond) is exercised single-threaded by a third of the generated stack histories (a forgotten unlock blocks the next call: watchdog) and by real pusher / popper threads (op st_threads: up to 16+16 threads, poppers started first sleep in pthread_cond_wait; compared with the StackThreads transition system run under one schedule, which by stack_threads_conservation reports what every schedule reports); assumed: the pthread primitives behave as POSIX says; Shuffle's Roll loop has fuel 10^6 (terminates with probability 1)",
                    "keyhash: esl_keyhash_Get(kh, i) has no bounds check in C: an index that was never assigned is outside its contract (model: fault); generated histories only ask for assigned indices",
                    "red-black: a third of the generated trees take their nodes from esl_red_black_doublekey_pool_Create() blocks (1..64 nodes per block); the pool is a node supply only, the tree model is the same",
@@ -702,7 +702,8 @@ class C19(Prop):
     def cases(self, ctx):
         rng = ctx.rng
         quick = ctx.tier == "quick"
-        self._quick = quick
+        import os
+        self._quick = quick and not os.environ.get("VERIF_C19_THOROUGH_SHAPES")   # development aid: thorough-size directed cases in a quick run
         self._nul = self.repaired(ctx)       # the known region (NUL keys stored by length) is avoided only while the defect is in the tree
         out = list(self.boundary_cases(rng))
         import os
@@ -1132,7 +1133,7 @@ class C19(Prop):
         "esl_heap_Reuse": ["heap_history"], "esl_heap_Destroy": [], "esl_heap_IInsert": ["heap_insert", "heap_history", "heap_grow", "heap_duplicates"],
         "esl_heap_IExtractTop": ["heap_extract", "heap_extract_null", "heap_sorts", "heap_drain"], "esl_heap_IGetTop": [],
         "esl_red_black_doublekey_Create": ["rb_ptr_history"], "esl_red_black_doublekey_Destroy": [], "esl_red_black_doublekey_linked_list_Destroy": [],
-        "esl_red_black_doublekey_pool_Create": ["rb_pool_never_twice", "rb_pool_give_take"],
+        "esl_red_black_doublekey_pool_Create": ["rb_pool_never_twice", "rb_pool_give_take", "rb_ptr_pool_history"],
         "esl_red_black_doublekey_insert": ["rb_ptr_insert_refines", "rb_ptr_rebalance_refines", "rb_ptr_insert_wf", "rb_ptr_history", "rb_insert", "rb_history", "rb_height"],
         "esl_red_black_doublekey_lookup": ["rb_ptr_lookup", "rb_lookup", "rb_lookup_history"],
         "esl_red_black_doublekey_convert_to_sorted_linked": ["rb_convert_doubly_linked", "rb_convert_passes_list_test", "rb_convert_null", "rb_ptr_history_converts", "rb_sorted_linked"],
